@@ -174,8 +174,8 @@ func (r *RtpPackerPayloadAvcHevc) PackNal(nal []byte, maxSize int) (out [][]byte
 				item[0] = NaluTypeAvcFua | nri
 				item[1] = nalType
 			} else {
-				item[0] = NaluTypeHevcFua << 1
-				item[1] = 1 // ffmpeg, rtpenc_h264_hevc.c, func nal_send
+				item[0] = NaluTypeHevcFua<<1 | nal[0]&0x81 // F位和LayerId最高位取自原始nal头
+				item[1] = nal[1]                           // LayerId低5位和TID取自原始nal头，ffmpeg, rtpenc_h264_hevc.c, func nal_send
 				item[2] = nalType
 			}
 
@@ -200,8 +200,8 @@ func (r *RtpPackerPayloadAvcHevc) PackNal(nal []byte, maxSize int) (out [][]byte
 			item[0] = NaluTypeAvcFua | nri
 			item[1] = nalType | 0x40 // end
 		} else {
-			item[0] = NaluTypeHevcFua << 1
-			item[1] = 1
+			item[0] = NaluTypeHevcFua<<1 | nal[0]&0x81
+			item[1] = nal[1]
 			item[2] = nalType | 0x40
 		}
 
